@@ -239,6 +239,10 @@ func buildMiscFamilies(thorough bool) {
 			return &listCase{items: []*imap.ListData{d}, label: "attribute subset x delimiter x CHILDINFO x OLDNAME"}
 		}
 		regList("list-items", len(specs), 32, get)
+		// many mailboxes in one command (the command's channel holds 64)
+		regList("list-many", 200, 200, func(i int) *listCase {
+			return &listCase{label: "one of 200 mailboxes of one LIST", items: []*imap.ListData{{Delim: '/', Mailbox: fmt.Sprintf("m/%d", i), Attrs: []imap.MailboxAttr{imap.MailboxAttrHasNoChildren}}}}
+		})
 
 		// names: Mailbox alone, OldName alone, then every pair
 		type nspec struct{ m, o int }
@@ -309,9 +313,9 @@ func buildMiscFamilies(thorough bool) {
 	// ---------------- STATUS ----------------
 	{
 		type spec struct {
-			name       string
-			mask, val  int
-			onlyAsked  bool
+			name      string
+			mask, val int
+			onlyAsked bool
 		}
 		var specs []spec
 		for mask := 0; mask < 256; mask++ {
@@ -484,10 +488,10 @@ func buildMiscFamilies(thorough bool) {
 	// ---------------- SEARCH / ESEARCH ----------------
 	{
 		type spec struct {
-			uid              bool
-			ret              int // bit 0 MIN, 1 MAX, 2 ALL, 3 COUNT
-			set, mmc         int
-			nilAll           bool
+			uid      bool
+			ret      int // bit 0 MIN, 1 MAX, 2 ALL, 3 COUNT
+			set, mmc int
+			nilAll   bool
 		}
 		sets := [][]rng{nil, {{1, 1}}, {{1, 3}}, {{1, 1}, {3, 3}, {5, 7}}, {{4294967295, 4294967295}}, {{2, 2}, {4294967294, 4294967295}}}
 		mmcs := [][3]uint32{{0, 0, 0}, {1, 1, 1}, {1, 4294967295, 4294967295}, {7, 3, 0}}
@@ -530,7 +534,7 @@ func buildMiscFamilies(thorough bool) {
 		one := func(cn *conn, i int) outcome {
 			sp := specs[i]
 			if err := cn.ensureSelected(); err != nil {
-				run.EngineError("benign SELECT failed: %v", err)
+				return setupFailed(1, err)[0]
 			}
 			data := mkData(sp)
 			var effective imap.SearchOptions
@@ -675,7 +679,7 @@ func buildMiscFamilies(thorough bool) {
 			d := copyDatas[i%len(copyDatas)]
 			uid := i >= len(copyDatas)
 			if err := cn.ensureSelected(); err != nil {
-				run.EngineError("benign SELECT failed: %v", err)
+				return setupFailed(1, err)[0]
 			}
 			cn.stub.OnCopy = func(numSet imap.NumSet, dest string) (*imap.CopyData, error) { return d, nil }
 			var set imap.NumSet = imap.SeqSetNum(1, 2)
@@ -730,7 +734,7 @@ func buildMiscFamilies(thorough bool) {
 			sp := specs[i]
 			d := copyDatas[sp.data]
 			if err := cn.ensureSelected(); err != nil {
-				run.EngineError("benign SELECT failed: %v", err)
+				return setupFailed(1, err)[0]
 			}
 			var writeErr error
 			cn.stub.OnMove = func(w *imapserver.MoveWriter, numSet imap.NumSet, dest string) error {
@@ -897,7 +901,7 @@ func buildMiscFamilies(thorough bool) {
 			l := lists[i%len(lists)]
 			uid := i >= len(lists)
 			if err := cn.ensureSelected(); err != nil {
-				run.EngineError("benign SELECT failed: %v", err)
+				return setupFailed(1, err)[0]
 			}
 			var writeErr error
 			cn.stub.OnExpunge = func(w *imapserver.ExpungeWriter, uids *imap.UIDSet) error {
@@ -1000,7 +1004,7 @@ func buildMiscFamilies(thorough bool) {
 			idle := i >= len(seqs)
 			sq := seqs[i%len(seqs)]
 			if err := cn.ensureSelected(); err != nil {
-				run.EngineError("benign SELECT failed: %v", err)
+				return setupFailed(1, err)[0]
 			}
 			var writeErr error
 			write := func(w *imapserver.UpdateWriter) {
@@ -1205,17 +1209,29 @@ func sortedJoin(l []string) string {
 }
 
 func buildCapabilityFamily(thorough bool) {
-	nOpt := 6
+	nOpt := len(optionalCaps)
+	var masks []int
 	if thorough {
-		nOpt = len(optionalCaps)
+		for m := 0; m < 1<<nOpt; m++ {
+			masks = append(masks, m)
+		}
+	} else {
+		// quick: every subset of the first six, every single capability, all of them
+		for m := 0; m < 1<<6; m++ {
+			masks = append(masks, m)
+		}
+		for b := 6; b < nOpt; b++ {
+			masks = append(masks, 1<<b)
+		}
+		masks = append(masks, 1<<nOpt-1)
 	}
-	n := 1 << nOpt
+	n := len(masks)
 	one := func(cn *conn, i int) outcome {
 		// own server: the capability list is a property of imapserver.Options
 		caps := capsFor(cn.cfg, nil)
 		var configured []imap.Cap
 		for b := 0; b < nOpt; b++ {
-			if i&(1<<b) != 0 {
+			if masks[i]&(1<<b) != 0 {
 				caps[optionalCaps[b]] = struct{}{}
 				configured = append(configured, optionalCaps[b])
 			}
@@ -1263,7 +1279,7 @@ func buildCapabilityFamily(thorough bool) {
 	desc := func(i int) string {
 		var l []string
 		for b := 0; b < nOpt; b++ {
-			if i&(1<<b) != 0 {
+			if masks[i]&(1<<b) != 0 {
 				l = append(l, string(optionalCaps[b]))
 			}
 		}
